@@ -547,6 +547,7 @@ package checkers
 //@   loop 1 invariant @operators-untouched-until-the-match lhs.Op == old(lhs.Op) && rhs.Op == old(rhs.Op)
 //@   call Replace requires @operands-are-pure-and-identical sideEffectFree(c.ctx.TypesInfo, lhs.X) && sideEffectFree(c.ctx.TypesInfo, lhs.Y) && astEq(lhs.X, rhs.X) && astEq(lhs.Y, rhs.Y)
 //@   call Replace requires @combined-check-is-equivalent forall a int, b int :: (cmpTokI(old(lhs.Op), a, b) || cmpTokI(rhs.Op, a, b)) <==> cmpTokI(lhs.Op, a, b)
+//@   call Replace requires @combined-check-is-exact-for-floats-and-nan forall an bool, a float64, bn bool, b float64 :: (cmpTokF(old(lhs.Op), an, a, bn, b) || cmpTokF(rhs.Op, an, a, bn, b)) <==> cmpTokF(lhs.Op, an, a, bn, b)
 
 //@ func (*boolExprSimplifyChecker).isSafe
 //@   prop C10
@@ -689,3 +690,11 @@ package checkers
 
 //@ func (*regexpSimplifyChecker).walkGroup
 //@   requires @handed-a-group g.Op == syntax.OpGroup || g.Op == syntax.OpCapture || g.Op == syntax.OpNamedCapture || g.Op == syntax.OpGroupWithFlags || g.Op == syntax.OpAtomicGroup
+
+// paramTypeCombine (C09): parameters are merged under one type expression only when both were spelled the same way, so
+// the combined declaration keeps every parameter's type (a `...T` is never merged with a `[]T`)
+//@ func (*paramTypeCombineChecker).optimizeParams
+//@   prop C09
+//@   nosafety node shapes are the subject of the C01 sweep
+//@   requires c != nil
+//@   loop 1 body @merged-only-when-spelled-alike len(list) == len(list$old) ==> astEq(old(params.List[$i + 1].Type), old(params.List[$i].Type))
